@@ -10,6 +10,8 @@
 (* (--ind-maf, --ind-mad, --min-ind, --maf, --mad; exact rationals) the       *)
 (* emitted records are a function defined from the documentation (Keep,       *)
 (* Emitted, Masked, mean sample frequency for the ALT order).                 *)
+(* Deep instances (Inst.seed # <<>>) start the same machine from a table of    *)
+(* 30-60 reads per sample (BulkPile / SeedIsPile) instead of the empty one.    *)
 EXTENDS Integers, Sequences, FiniteSets, TLC, Json
 
 CONSTANTS Inst     \* [maxlen, minqs, fm, cv, th, samples, seed] (see Inst* below)
